@@ -49,7 +49,7 @@ TIMEOUT = {'quick': 600, 'thorough': 3000}
 FLOORS = {
     'contract_expr_rule': 20000, 'contract_ref_binder': 5000, 'contract_node_in_env': 20000, 'contract_table_wrapper': 1000,
     'contract_table_model': 500, 'contract_matrix_wrapper': 500, 'contract_matrix_model': 300, 'contract_literal_typecheck': 1000,
-    'contract_literal_roundtrip': 500, 'ir_node_classes': 60,
+    'contract_literal_roundtrip': 500, 'ir_node_classes': 60, 'contract_join_row_layout': 10, 'joins_with_left_key_not_leading': 2,
 }
 
 # IR classes whose "rule" merely returns a type stored at construction (no derivation from children)
@@ -1024,7 +1024,20 @@ def run(ctx):
                         if op == 'join':
                             how = rng.choice(['inner', 'left', 'right', 'outer'])
                             m2.row.update(ovals)
-                            res = guarded('join', lambda: t.join(other, how=how))
+                            def _join(t=t, other=other, how=how):
+                                r = t.join(other, how=how)
+                                # row layout of TableJoin (engine rule, TableIR.scala `TableJoin.typ`): the left key fields in key
+                                # order, the other left fields in row order, then the right non-key fields
+                                lk, rk = list(t.key), list(other.key)
+                                exp = lk + [f for f in t.row.dtype if f not in lk] + [f for f in other.row.dtype if f not in rk]
+                                ctx.count('contract_join_row_layout')
+                                if list(t.row.dtype)[:len(lk)] != lk:
+                                    ctx.count('joins_with_left_key_not_leading')
+                                if list(r.row.dtype) != exp:
+                                    hook.pending.append(('table/join-row-layout-differs-from-relational-rule',
+                                                         f'Table.join({how}) row fields {list(r.row.dtype)} but TableJoin lays the row out as {exp}', {'op': 'join'}))
+                                return r
+                            res = guarded('join', _join)
                         else:
                             nn = fresh_name(rng, set(m.row) | set(m.g), 'j')
                             if rng.random() < 0.5:
